@@ -131,7 +131,7 @@ PROPS = {
         "lean_targets": ["Proofs.GenWordOps", "Proofs.GenTables"],
     },
     "C05": {
-        "extra_modules": ["C05Lit"],
+        "extra_modules": ["C05Lit", "CGenK"],
         "gens": [{"name": "mix", "quick": 900, "thorough": 4000}, {"name": "C05", "quick": 5000, "thorough": 20000}, {"name": "sqrtenum", "quick": 10000, "thorough": 10000, "single_shard": True}],
         "nontrivial": {"inexact", "perfect-square", "special", "nan"},
         "rule": ARITH_RULE + "specification = Nat.sqrt of the scaled operand + sticky, rounded once; non-trivial = inexact root, perfect square, special operand or negative operand",
